@@ -185,9 +185,58 @@ def gen_c02_constants(rng, tier):
             yield {"op": "buflong", "payload": payload, "cuts": [c + 1, c + 2048]}
 
 
+def run_many_invalid(case, outcome):
+    """thousands of complete elements that are not valid messages (known tag, refused by the constructor), then a valid
+    message: no exception, bounded retention, the valid message delivered - whatever the pieces"""
+    from indi.transport import Buffer
+
+    stream = case["unit"] * case["count"] + case["tail"]
+    T = case["threshold"]
+    cuts = [c for c in case["cuts"] if 0 < c < len(stream)]
+    pieces = cuts_to_pieces(stream, cuts)
+    b = Buffer()
+    b.max_buffer_size_before_frontal_cleanup = T
+    calls = []
+    for piece in pieces:
+        got, status = [], ""
+        b.append(piece)
+        try:
+            with time_limit(120):
+                b.process(got.append)
+        except Watchdog:
+            status = "HANG"
+        except BaseException as e:  # noqa
+            status = "raised:" + type(e).__name__
+        calls.append(([1 if getattr(m, "message", None) == "after" else 99 for m in got] + ([9997] if status else []), len(b.data)))
+        if status:
+            outcome.count(status)
+            break
+    outcome.nontrivial.add(("many-invalid", case["unit"], case["count"], T, tuple(cuts)))
+    outcome.count("invalid-elements", case["count"])
+    tstr = "~" if T is None else str(T)
+    delivered = [i for d, _n in calls for i in d]
+    return [Query("spec buf11 %s %s %s" % (tstr, enc_list(str, [1]), enc_list(lambda c: enc_list(str, c[0]) + " " + str(c[1]), calls)), "True", "oracle",
+                  "C11: %d complete-but-invalid elements in %d pieces: an exception, a hang or unbounded retention" % (case["count"], len(pieces))),
+            Query("spec istrue %s" % ("True" if delivered == [1] else "False"), "True", "oracle",
+                  "C11: the valid message after %d complete-but-invalid elements was not delivered (delivered: %s)" % (case["count"], delivered[:5]))]
+
+
+def gen_c11_many(rng, tier):
+    units = ['<getProperties/>', '<enableBLOB device="A">Sometimes</enableBLOB>', '<newSwitchVector device="A" name="P"><oneSwitch name="e">Maybe</oneSwitch></newSwitchVector>']
+    tail = '<message device="D" message="after"/>\n'
+    for unit in units:
+        for count in ([300, 1500, 4000] if tier == "thorough" else [1500]):
+            n = len(unit) * count
+            for T in ([16, 2048, None] if tier == "thorough" else [2048, None]):
+                yield {"op": "bufmany", "unit": unit, "count": count, "tail": tail, "threshold": T, "cuts": []}
+                yield {"op": "bufmany", "unit": unit, "count": count, "tail": tail, "threshold": T, "cuts": list(range(1024, n, 1024))}
+
+
 def run_impl(case, outcome):
     if case.get("op") == "buflong":
         return run_long(case, outcome)
+    if case.get("op") == "bufmany":
+        return run_many_invalid(case, outcome)
     stream = case["stream"]
     T = case["threshold"]
     ids = {}
